@@ -301,6 +301,9 @@ class History:
 
     def event(self, ev):
         """apply one event to the model, replay its calls on the implementation, compare"""
+        if ev.get("ev") == "legacy_batches":       # replay of a recorded store rewrite
+            self.legacy_batches()
+            return {"committed": True, "calls": []}
         self.events.append(ev)
         self.stats.events += 1
         kind = ev["ev"]
@@ -345,7 +348,32 @@ class History:
             self.random_queries()
         if self.mode == "model" and self.rng.random() < self.profile.get("probes", 0.12):
             self.probe()
+        if kind != "legacy_batches" and self.rng.random() < self.profile.get("legacy", 0):
+            self.legacy_batches()
         return tx
+
+    def legacy_batches(self):
+        """rewrite every stored batch the way contract versions before the request counter wrote them
+        (`unstake_requests_count` absent), on both sides; the history then goes on from that store -- the
+        state of a deployment that was upgraded by the provided migrations"""
+        dump = self.h.call({"op": "rawdump"})["ok"]
+        pre = (len("batches").to_bytes(2, "big") + b"batches").hex()
+        n = 0
+        for k, v in dump:
+            if k.startswith(pre) and len(k) == len(pre) + 16:
+                b = json.loads(bytes.fromhex(v))
+                if "unstake_requests_count" in b:
+                    del b["unstake_requests_count"]
+                    self.h.call({"op": "rawset", "key": k, "value": json.dumps(b, separators=(",", ":")).encode().hex()})
+                    n += 1
+        if self.mode == "model":
+            self.d.call({"op": "legacy_batches"})
+            self._sync_dump()
+        else:
+            self._impl_dump()
+        self.events.append({"ev": "legacy_batches"})
+        self.stats.bump(self.stats.by_event, "legacy_batches")
+        return n
 
     def probe(self):
         """probe calls (never committed on either side): a handler followed by `reply` with an arbitrary
